@@ -93,11 +93,14 @@ def run_case(ck, stats, rng, scen):
             # empty (placeholder-like) and non-empty pre-existing files
             sb.add(dstmd, dstsub, b'' if rng.randrange(2) else b'pre-existing ' + n.encode(), name=n, mtime=1234567890)
     before = sb.snapshot(dstmd, with_mtime=True)
-    rc, out, err = sb.run([], conf=conf, env={'VFIO_TIME': str(TS), 'VFIO_PID': str(PID), 'VFIO_HOST': HOST, 'VFIO_RANDOM': str(rnd)}, preload=SHIM)
+    env = {'VFIO_TIME': str(TS), 'VFIO_PID': str(PID), 'VFIO_HOST': HOST, 'VFIO_RANDOM': str(rnd)}
+    if scen.get('xdev'):
+        env['VFIO_XDEV'] = '1'
+    rc, out, err = sb.run([], conf=conf, env=env, preload=SHIM)
     stats['evals'] += 1
     after = sb.snapshot(dstmd, with_mtime=True)
     srcafter = sb.snapshot(src, with_mtime=True)
-    desc = 'name %r in %s, rule %r, %d pre-existing candidate(s), random %d' % (name, srcsub, rule, scen['prepop'], rnd)
+    desc = 'name %r in %s, rule %r, %d pre-existing candidate(s), random %d%s' % (name, srcsub, rule, scen['prepop'], rnd, ', rename fails with EXDEV' if scen.get('xdev') else '')
     replay = {'scenario': scen, 'random': rnd, 'config': open(conf).read(), 'exit': rc, 'stderr': err[-300:].decode(errors='replace')}
     # ---- monitor: the convention on the final tree ----------------------------------------------
     for k, v in before.items():
@@ -152,11 +155,16 @@ def run(ck):
         scens.append(dict(name=rng.choice(NAMES), srcsub=rng.choice(['new', 'cur']), action=act,
                           mdname=rng.choice(MDNAMES), prepop=rng.choice([0, 0, 1, 2, 3, 5]),
                           extra=rng.choice(['T', 'SR', 'zA', 'TT', 'S', 'F1', '']) if 'flags' in act else '',
-                          colon_src=(rng.randrange(4) == 0)))
+                          colon_src=(rng.randrange(4) == 0), xdev=(rng.randrange(4) == 0)))
     # every name shape x both subdirs at least once with a plain move
     for nm in NAMES:
         for sub in ('new', 'cur'):
             scens.append(dict(name=nm, srcsub=sub, action='move_flag' if sub == 'new' else 'flag_move', mdname='dst', prepop=1, extra='', colon_src=False))
+    # source and destination on different file systems (rename fails with EXDEV: copy, restore the mtime, unlink)
+    for act in acts:
+        for sub in ('new', 'cur'):
+            scens.append(dict(name=rng.choice(NAMES[:6]), srcsub=sub, action=act, mdname='dst', prepop=rng.choice([0, 2]), extra='T' if 'flags' in act else '',
+                              colon_src=False, xdev=True))
     for sc in scens:
         if sc['action'] in ('flags', 'flags_move') and sc['extra'] == '':
             sc['extra'] = 'T'
@@ -168,7 +176,7 @@ def run(ck):
         'distinct_nontrivial': len(stats['nontrivial']),
         'rule': 'one message per run; file name from 17 suffix shapes (absent, empty, sorted/unsorted/duplicate letters, all 52 letters, invalid: wrong version, '
                 'missing comma, digit, dash, second suffix), both subdirectories, action from {move, flag new, flag !new, flags, move+flag, flag+move, flags+move}, '
-                'destination maildir names with space, %, UTF-8 and ":" , 0-5 pre-existing candidate names; clock/pid/host/random pinned; '
+                'destination maildir names with space, %, UTF-8 and ":" , 0-5 pre-existing candidate names; a quarter of the runs and one per action and subdirectory with the rename failing with EXDEV (copy path); clock/pid/host/random pinned; '
                 'non-trivial = valid flags (the message must be renamed); distinct = distinct (name, subdir, action, prepopulation, letters)',
         'samples': scens[:4],
         'traces_validated_against_impl': stats['evals'],
